@@ -14,21 +14,24 @@ CHECKS = {
         technique="static exception-escape, loop-progress and loop-cost analysis (abstract interpretation over the ast: linear facts, intervals, taint, class invariants)",
         text="Decides, for every path and every input, three structural necessary conditions of C05 on the receive path: (EXC) no exception "
              "other than ValueError escapes a wire parser and nothing but ConnectionError/CancelledError escapes a receive root; (PROG) every "
-             "cursor-driven parsing loop strictly advances; (COST) wire-controlled loop nests are tied to the datagram length or to local state. "
+             "cursor-driven parsing loop strictly advances (serial cursors only by modular steps); (COST) wire-controlled loop nests are tied to the datagram length or to local state; "
+             "(TIMER) timer starters are preceded by cancel/guard on every path; (SIGN) counters decreased by received lengths are clamped before serialisation. "
              "It does not decide memory growth over histories, native-library behaviour or wall-clock time.",
         ref="DESIGN.md section 3 C05 and section 9"),
     "C12": dict(
         technique="table symmetry (set comparison of may-store vs scrubbed tables), def-use provenance, finite-domain evaluation of the routing guards",
         text="Decides four structural clauses of the router: every table that can hold a receiver/sender is scrubbed by unregister with an "
              "all-keys removal; route_rtp/route_rtcp hand out only table contents; route_rtp's decision equals the specified table over an "
-             "enumerated abstract domain of table states; route_rtcp consults exactly the SSRC-bearing fields of each RTCP packet type. With "
+             "enumerated abstract domain of table states; route_rtcp consults exactly the SSRC-bearing fields of each RTCP packet type (unknown SSRCs first / in between do not hide "
+             "registered ones); a routing decision is consumed by the very next delivery. With "
              "these, 'nothing is routed to an unregistered object' follows for every history; behaviour not determined by the tables is not decided.",
         ref="DESIGN.md section 3 C12"),
     "C14": dict(
         technique="finite-domain evaluation of state guards against the JSEP table; must-event (dominance) analysis for validate-before-mutate; call-graph may-write sets",
         text="Decides the guard table (24 cells + createAnswer + closed latch), the next-state literals, that every write to signalingState and "
              "the four description slots is dominated by __validate_description (and nothing called earlier may write them), that the m-line "
-             "match is order-sensitive, and that close() latches before suspending. These determine the state machine for all call sequences "
+             "match is order-sensitive, that close() latches before suspending, the description-slot updates per type, and that the per-section structural checks reject "
+             "defective audio / video / application sections alike. These determine the state machine for all call sequences "
              "over the property's alphabet; pranswer/rollback and side effects outside the five slots are not decided.",
         ref="DESIGN.md section 3 C14"),
 }
@@ -50,59 +53,64 @@ CHECKS["C17"] = dict(
     ref="DESIGN.md section 3 C17")
 
 CHECKS["C10"] = dict(
-    technique="exception-escape analysis of JitterBuffer.add under an inductively checked class invariant; who-may-write scan; sibling-structure rules; serial-number qualifier analysis; def-use",
+    technique="exception-escape analysis of JitterBuffer.add under an inductively checked class invariant; who-may-write scan; sibling-structure rules; serial-number qualifier analysis; def-use; evaluation of add() by the checker's interpreter over enumerated arrival schedules",
     text="Decides: add() cannot raise for any packet (ring indices discharged by the invariant len(_packets) == _capacity and x % capacity < capacity); the ring "
          "never grows; every direct discard raises the video PLI flag; the late-packet reset threshold is the constant 100; sequence numbers and timestamps are "
-         "only handled through wrap-safe operations and `is None` sentinels; the receiver uses add()'s two results faithfully. It does not decide frame integrity or "
-         "release guarantees over arrival histories.",
+         "only handled through wrap-safe operations and `is None` sentinels; the receiver uses add()'s two results faithfully; on enumerated loss-free schedules (frame sizes x "
+         "prefetch x adjacent swap x wrap) every frame comes out whole, once, in order; with a permanent loss and a burst at overflow only whole frames or - right after a discard - "
+         "tails are released and a PLI is raised. Other arrival histories are not decided.",
     ref="DESIGN.md section 3 C10")
 CHECKS["C13"] = dict(
     technique="typestate per call site from must-event guards evaluated over the four states; finite-domain evaluation of the DCEP writer/reader and of the bufferedamountlow predicate; structural pairing rules",
     text="Decides: readyState only moves forward at every _setReadyState call site; DATA_CHANNEL_OPEN written and read agree for all ordering/reliability "
          "combinations and non-ASCII labels/protocols; bufferedAmount is raised and lowered by len() of the very bytes queued/sent and bufferedamountlow fires "
          "exactly on downward crossings; ids have role parity and step 2, a reset is only queued for a channel with an id, and association close closes every "
-         "channel unconditionally. It does not decide behaviour under fault schedules or open/close races beyond the transition relation.",
+         "channel unconditionally; a completed reset request is cleared before the reset queue is restarted. It does not decide behaviour under fault schedules or open/close races beyond the transition relation.",
     ref="DESIGN.md section 3 C13")
 CHECKS["C15"] = dict(
     technique="exception-escape analysis of RemoteBitrateEstimator.add with intervals, float bounds and class invariants; paired-update rule; must-event guard rule; grid evaluation of the clamp expressions",
     text="Decides: no division by zero, negative sqrt, bad index or unbounded REMB SSRC count can escape the estimator; _total changes only together with the "
-         "buckets; the latest measurement is recorded whenever one exists; update() returns the clamped value and the clamp / over-use cut respect the 1.5x+10kbit/s "
+         "buckets; the SSRC bookkeeping keeps the newest and evicts the oldest; the latest measurement is recorded whenever one exists; update() returns the clamped value and the clamp / over-use cut respect the 1.5x+10kbit/s "
          "and 85 % bounds on a grid of values. Two numeric denominators are exempted with reasons. It does not decide the numeric behaviour of the filter.",
     ref="DESIGN.md section 3 C15")
 CHECKS["C16"] = dict(
     technique="finite-domain evaluation of descriptor writer/reader over the complete flag space and of the packetisers over boundary size classes; linear length forms for the STAP-A budget",
     text="Decides: VP8 descriptor __bytes__/parse agree for all 360 combinations of optional fields and PictureID widths; VP8 packetisation yields payloads <= 1300 "
          "with the S bit only on the first packet and bytes verbatim for boundary buffer lengths; FU-A fragments carry exactly one start/end marker and the original "
-         "header bits for all 256 header octets; the STAP-A size budget is decremented by exactly the bytes appended. It does not decide the <= 1300 bound of "
-         "STAP-A/FU-A for all size sequences nor reconstruction for all inputs.",
+         "header bits for all 256 header octets and stay <= 1300 bytes on the boundary size classes; single NAL packets of types 1-23 depacketise verbatim; the STAP-A size budget "
+         "is decremented by exactly the bytes appended. It does not decide the <= 1300 bound of STAP-A for all size sequences nor reconstruction for all inputs.",
     ref="DESIGN.md section 3 C16")
 CHECKS["C18"] = dict(
     technique="data-dependence and guard (must-event) rules, serial qualifier analysis, grid evaluation of fraction_lost against RFC 3550 A.3, interval analysis of the packed report fields",
     text="Decides: the reported highest sequence includes wrap cycles and the cycle counter only advances for in-order packets; timestamp differences are reduced "
          "modulo 2^32; fraction_lost equals the RFC formula on a grid incl. duplicates/late arrivals; packets_lost, highest_sequence, jitter and lsr provably fit "
-         "their RTCP fields. The upper bound of dlsr and numeric equality over histories are not decided.",
+         "their RTCP fields; dlsr is 0 or the scaled delay and within 32 bits on a grid of delays. Numeric equality over histories is not decided.",
     ref="DESIGN.md section 3 C18")
 
 CHECKS["C01"] = dict(
-    technique="must-event guard (dominance) analysis of the duplicate filter; finite-domain evaluation of the PPID mapping and of _send's fragmentation; def-use provenance; reset table-clearing rule",
+    technique="must-event guard (dominance) analysis of the duplicate filter; finite-domain evaluation of the PPID mapping, of _send's fragmentation and of the receive path over enumerated arrival orders; def-use provenance; reset table-clearing rule; serial qualifier analysis",
     text="Decides structural necessary conditions of exactly-once / intact / right-channel delivery: reassembly is dominated by the 'new TSN' edge of "
          "_mark_received, which tests both the cumulative TSN and the misordered set; the str/bytes/empty mapping through the payload protocol identifiers is "
          "invertible; _send assigns consecutive TSNs modulo 2^32, B/E/U flags and one stream sequence number per message and its fragments tile the message for "
-         "sizes around the fragment boundary; the stream id used for delivery is the chunk's; stream resets clear the per-stream tables. It does not decide "
-         "reassembly or ordering under loss/reordering schedules.",
+         "sizes around the fragment boundary; the stream id used for delivery is the chunk's; stream resets clear the per-stream tables; TSN / stream-sequence "
+         "arithmetic is wrap-safe (C17 rule set); for every arrival order (plus a duplicate) of interleaved messages on two streams _receive_data_chunk delivers each message "
+         "once, intact, in order and leaves nothing queued; abandonment / FORWARD-TSN never touch other messages (C06 rules). Arrival orders beyond the enumerated families "
+         "are not decided.",
     ref="DESIGN.md section 3 C01")
 CHECKS["C04"] = dict(
     technique="structural ordering of start(); must-event guards evaluated over the five transport states; finite-domain evaluation of the fingerprint policy and of the SRTP key slicing",
     text="Decides: start() performs handshake, identity check and SRTP setup, each followed by the FAILED check, before CONNECTED and the data pump; every "
          "hand-over of decrypted bytes is guarded by a condition that holds only in CONNECTED (or by the SRTP session only start() can create); sends check "
          "CONNECTED; the fingerprint policy equals 'at least one supported, all supported match, case-insensitive' on 900 enumerated lists; both roles derive "
-         "the RFC 5764 mirror-image key/salt slices for the three profiles; SRTP failures deliver nothing. It does not decide what OpenSSL/libsrtp do.",
+         "the RFC 5764 mirror-image key/salt slices for the three profiles; SRTP failures deliver nothing; the first-byte demultiplexer equals RFC 7983 for all 256 values and "
+         "is_rtcp separates RTCP from negotiable RTP payload types. It does not decide what OpenSSL/libsrtp do.",
     ref="DESIGN.md section 3 C04")
 CHECKS["C08"] = dict(
     technique="reader/writer struct-format and field-order extraction; finite-domain evaluation of parameter and padding arithmetic over all length residues; must-event guard on the checksum gate; registry constants",
     text="Decides: every chunk / RE-CONFIG parameter class reads the formats and field order it writes; encode/decode_params agree for all lists of up to three "
          "parameters with value lengths 0..4; padding and length fields are right for all residues and two bundled chunks parse back; every chunk class is "
-         "registered with a distinct type; no chunk is constructed unless the checksum comparison held. It does not decide the burst-detection power of CRC32c "
+         "registered with a distinct type; no chunk is constructed unless the checksum comparison held; every chunk / parameter class with representative field values, flags and "
+         "list lengths survives serialise -> parse with equal fields. It does not decide the burst-detection power of CRC32c "
          "nor equality for all field values.",
     ref="DESIGN.md section 3 C08")
 
@@ -118,7 +126,7 @@ CHECKS["C11"] = dict(
     text="Decides: every path of NackGenerator.add that can add to `missing` reaches truncate(); the NACK window, the sender's history store and lookup use one "
          "constant; a retransmission is sent only for the exact sequence number asked for; unwrap_rtx is dominated by the payload-length, apt and SSRC-mapping "
          "checks and the media codec is used afterwards; statistics see the wire packet while NACK generation and the jitter buffer see the unwrapped one; "
-         "serial discipline in the RTP sender/receiver. It does not decide eventual recovery or byte identity of decoder input under loss schedules.",
+         "serial discipline in the RTP sender/receiver; shared rules: NACK wire format and RTX wrapping (C07), jitter-buffer frame integrity on enumerated schedules (C10). It does not decide eventual recovery or byte identity of decoder input under loss schedules.",
     ref="DESIGN.md section 3 C11")
 
 CHECKS["C09"] = dict(
@@ -134,8 +142,8 @@ CHECKS["C03"] = dict(
     text="Decides: and/or/reverse_direction equal capability intersection/union/swap and their composition gives complementary current directions for all 16 pairs; "
          "negotiated transceiver state is only read for transceivers selected through the description; createAnswer appends exactly one section per remote section on "
          "every path, looked up by the remote mid, and BUNDLE lists the mids in order; find_common_codecs/header_extensions select only offered entries with the offerer's "
-         "payload types/ids on boundary scenarios (96, 127, static, RTX/base pairs, H264 profiles); the ICE role is assigned once per transport; DTLS roles are definite and "
-         "complementary. It does not decide that every configuration negotiates and connects.",
+         "payload types/ids on boundary scenarios (96, 127, static, RTX/base pairs, H264 profiles); the ICE role is assigned once per transport; bundling moves each object once (guard + latch); DTLS roles are definite and "
+         "complementary; description slots are updated per type. It does not decide that every configuration negotiates and connects.",
     ref="DESIGN.md section 3 C03")
 
 CHECKS["C02"] = dict(
@@ -143,7 +151,8 @@ CHECKS["C02"] = dict(
     text="Decides structural necessary conditions of 'no permanent stall': _flight_size is only written by its helpers / a reset, every increase happens for a chunk "
          "whose _acked is False (so the cumulative-ack path undoes it), acks decrease under exactly `not _acked`, a T3 expiry leaves nothing counted; T3 is armed on "
          "every path of start/restart, after every data (re)transmission, cleared and followed by _transmit on expiry, cancelled only with nothing outstanding; every "
-         "producer of the three queues starts its consumer on every exit, accepted SACKs reach flush and transmit; cwnd never drops below one MTU. It does not decide "
+         "producer of the three queues starts its consumer on every exit, accepted SACKs reach flush and transmit; cwnd never drops below one MTU; the receive loop cannot be killed by a "
+         "repeated chunk (timer typestate) or a negative window (sign rule); wrap-safe sequence arithmetic; nothing complete stays queued for the enumerated arrival orders. It does not decide "
          "delivery in bounded time or absence of stalls over all fault histories (abandoned fragments of partially reliable messages are outside the rules).",
     ref="DESIGN.md section 3 C02")
 
